@@ -139,7 +139,7 @@ def cached_ahb_sweep(model: SrcModel, tier: str):
         import os
 
         jobs = [(str(model.repo), tuple(sorted(model.overlay.items())), cs[i::32]) for i in range(32)]
-        with ProcessPoolExecutor(max_workers=min(16, os.cpu_count() or 4)) as ex:
+        with ProcessPoolExecutor(max_workers=int(os.environ.get("VSTAT_WORKERS") or min(16, os.cpu_count() or 4))) as ex:
             for probs, errs in ex.map(_worker, jobs):
                 problems.extend(probs)
                 errors.extend(errs)
